@@ -61,7 +61,7 @@ func c02Doc(family int, v string) ([]map[string]any, func()) {
 			"zed":   map[string]any{"extends": ext, "environment": map[string]any{"ROLE": "zed"}}}}
 		return []map[string]any{doc}, setup
 	case family == 18: // many extra_hosts entries (beyond the size where sorting switches algorithm), one host with two addresses, merged
-		hosts := map[string]any{"multi": []any{"10.0.0.9", "10.0.0.1"}}
+		hosts := map[string]any{"multi": []any{"10.0.0.9", "10.0.0.1"}, "again": []any{"10.0.0.7", "10.0.0.3"}, "single": []any{"10.0.0.5"}}
 		for i := 0; i < 13; i++ {
 			hosts["h"+string(rune('a'+i))] = "10.0.1." + string(rune('0'+i%10))
 		}
